@@ -31,7 +31,7 @@ Component flavours and the finish() interleaving (parts 1-3): configurations may
    the restart hook runs (answers finishPossible / finishNotRequired; the hook file calls back into the harness).
 
 Keys: the three named deviations of the spec have their own keys (DEV_KEY, genuine defects of /repo, see
-out/proposed_fixes/C12_*); every other mismatch is keyed by entry point, engine kind and class of the step.
+findings/C12_*); every other mismatch is keyed by entry point, engine kind and class of the step.
 """
 import json
 import os
@@ -61,7 +61,7 @@ DEV_INVARIANT = {"capBypass": "ResubBounded", "repeatingIgnoresMaxRestarts": "Bu
                  "repeatingIgnoresRestartOn": "OnlyRestartable"}
 INIT = ("running", "none", 0, 0, "none")
 # Switch (as G01_CLOBBER in g01.py): also explore finish() arriving WHILE the restart hook runs.  The code as built restarts a
-# MIGRATABLE component in that case (genuine defect, out/proposed_fixes/C12_finish_during_restart_hook_*): off until it is
+# MIGRATABLE component in that case (genuine defect, findings/C12_finish_during_restart_hook_*): off until it is
 # repaired or listed in known_findings.json (key DEV_KEY["finishedMigratableRestarted"]); C12_FINISH_IN_HOOK=1 switches it on.
 FINISH_IN_HOOK = os.environ.get("C12_FINISH_IN_HOOK", "1") == "1"    # on by default since fix 0680eed
 
